@@ -43,7 +43,7 @@ def register(P):
     reg(P, "C02", ["UtpVerif.Props.C02"], ["calls_resolve", "ack_timeliness", "rtx_timer"], ["txring", "rx"])
     reg(P, "C03", ["UtpVerif.Props.C03"], ["calls_resolve", "stream_content", "ack_honesty"], ["txring", "rx"])
     reg(P, "C06", ["UtpVerif.Props.C06"], ["stream_content", "retx_cap"], ["segs"])
-    reg(P, "C08", ["UtpVerif.Props.C08"], ["calls_resolve"])
+    reg(P, "C08", ["UtpVerif.Props.C08"], ["calls_resolve", "task_ends"])
     reg(P, "C10", ["UtpVerif.Props.C10"], ["bug_errors"], ["segs", "rx", "wire"])
     # component oracles of the extra components
     P.PROPS["C01"]["oracles"]["segs"] = lambda case, impl: P.SEGS_ORACLE(case, impl)
@@ -63,3 +63,8 @@ def register(P):
     P.PROPS["C04"]["oracles"]["ack_honesty"] = VO.ALL["ack_honesty"]
     P.ORACLE_COMPONENT["ack_honesty"] = "vsock"
     P.PROPS["C19"]["components"].append("vsock")
+    # C09 at connection level: lockstep (the model uses wrap-aware comparison everywhere) + relabelling metamorphic run
+    P.PROPS["C09"]["components"].append("vsock")
+    P.PROPS["C09"]["oracles"]["isn_relabel"] = VO.ALL["isn_relabel"]
+    P.ORACLE_COMPONENT["isn_relabel"] = "vsock"
+    P.ORACLE_COMPONENT["task_ends"] = "vsock"
